@@ -205,17 +205,31 @@ def r9_3(ctx):
                 continue
             tt, tf = be
             found = True
-            lit_true = _assigned_str(g, o, tt, (t["target"], tt))
-            lit_false = _assigned_str(g, o, tf, (t["target"], tf))
             pb = pat.a.as_bytes() if pat.kind == "const" else None
             if pb is None and pat.kind == "const":
                 from ..cfgq import promoted_tree
                 pt = promoted_tree(prog, g, pat.a)
                 if pt is not None and peel(pt).kind == "const":
                     pb = peel(pt).a.as_bytes()
-            ctx.check(pb == b"\n" and lit_true == "" and lit_false == " (no-eol)", "no-eol-edge", g.loc(bb),
-                      "` (no-eol)` is appended exactly when the line does not end with a newline",
-                      "ends_with(%r): true edge appends %r, false edge appends %r" % (pb, lit_true, lit_false))
+            # blocks assigning the two suffix literals
+            lits = {}
+            for bi, blk in enumerate(g.blocks):
+                if bi not in excl("UnexpectedLines"):
+                    continue
+                for st in blk["stmts"]:
+                    if st["k"] == "assign" and st["rv"]["k"] == "use" and "const" in st["rv"]["op"]:
+                        from ..facts import ConstVal, Node
+                        v = const_str_of(prog, g, Node("const", ConstVal(st["rv"]["op"]["const"])))
+                        if v in ("", " (no-eol)"):
+                            lits.setdefault(v, []).append(bi)
+            rt = g.reachable(tt, removed_edges=back)
+            rf = g.reachable(tf, removed_edges=back)
+            ne = lits.get(" (no-eol)", [])
+            em = lits.get("", [])
+            ok = pb == b"\n" and len(ne) == 1 and ne[0] in rf and ne[0] not in rt and any(e in rt for e in em)
+            ctx.check(ok, "no-eol-edge", g.loc(bb),
+                      "` (no-eol)` is appended only on the `!line.ends_with(b\"\\n\")` edge; a terminated line always gets the empty suffix",
+                      "ends_with(%r): ` (no-eol)` assigned in blocks %s (reachable from the true edge: %s), empty suffix in %s" % (pb, ne, [x for x in ne if x in rt], em))
     ctx.check(found, "no-eol-test", g.where(), "the unexpected-lines arm tests ends_with(b\"\\n\")")
 
 
@@ -311,6 +325,54 @@ def r9_4(ctx):
     ctx.check("[{}]\n" in forms2, "invalid-exit-form", gt.where(), "the InvalidExitCode arm writes the actual code as `[<code>]`")
 
 
+def r9_6(ctx):
+    """sibling agreement: wherever ` (no-eol)` is appended *after* a line was rendered through escaped_expectation, the
+    append is guarded by `!rendering.ends_with(" (escaped)")` (an escaped expectation ignores the line terminator, and
+    `x (escaped) (no-eol)` parses as a no-eol expectation for the literal text `x (escaped)`)"""
+    prog = ctx.prog
+    n = 0
+    for b in prog.bodies:
+        if b.promoted is not None or b.auto_derived or not ("src/generators/" in b.file or "src/output.rs" in b.file):
+            continue
+        if not any(mname(t) == "Escaper::escaped_expectation" for _, t in b.calls()):
+            continue
+        o = Origins(b)
+        lit_blocks = []
+        for bi, blk in enumerate(b.blocks):
+            if blk["cleanup"]:
+                continue
+            for si, st in enumerate(blk["stmts"]):
+                if st["k"] == "assign" and st["rv"]["k"] == "use" and "const" in st["rv"]["op"]:
+                    from ..facts import ConstVal, Node
+                    if const_str_of(prog, b, Node("const", ConstVal(st["rv"]["op"]["const"]))) == " (no-eol)":
+                        lit_blocks.append((bi, si))
+        for bi, si in lit_blocks:
+            n += 1
+            back = b.back_edges()
+            guarded = False
+            for sb, st in switches(b):
+                be = bool_edges(b, sb)
+                if be is None:
+                    continue
+                tree = cond_tree(b, sb, o)
+                found = [x for x in tree.walk() if x.kind == "call" and method_name(x.a) in ("str::ends_with", "String::ends_with") and len(x.kids) > 1
+                         and const_str_of(prog, b, x.kids[1]) == " (escaped)"]
+                if not found:
+                    continue
+                reach = [bi in b.reachable(s2, removed_edges=back) or s2 == bi for s2 in b.succ(sb)]
+                if any(reach) and not all(reach):
+                    guarded = True
+            # `a && !b && c` lowers to nested switches: the literal block is control dependent on each of them
+            fn = b.name if b.npath.startswith("<") else b.npath.split("::")[-1]
+            ctx.check(guarded, "no-eol-after-escaped:%s" % fn, stmt_loc(b, bi, si),
+                      "` (no-eol)` is appended to an escaped_expectation rendering only when that rendering does not end in ` (escaped)`",
+                      "` (no-eol)` is appended after the ` (escaped)` marker without a guard: output `a<ESC>b` without final newline is written as "
+                      "`a\\x1bb (escaped) (no-eol)`, which parses as a no-eol expectation for the literal text and fails on the very output it was generated from "
+                      "(the sibling OutputStream::to_output_string has the guard)")
+    ctx.check(n >= 2, "no-eol-sites", "-", "%d ` (no-eol)` append sites next to escaped_expectation analysed" % n,
+              "only %d ` (no-eol)` append sites found (2 confirmed by reading: Outcome::generate_testcase, OutputStream::to_output_string)" % n)
+
+
 def r9_5(ctx):
     from . import c11
     c11.r11_2(ctx)
@@ -322,5 +384,6 @@ def run(ctx):
     ctx.run_rule("R9.1", "Markdown fences: same `\"`\".repeat(max_backtick_size(body)+c)` value opens and closes, c>=1, measured text == emitted text; max_backtick_size >= 2, max over all lines [E-FLOW]", r9_1, floor=12)
     ctx.run_rule("R9.2", "no str::trim* is applied to a generated test body anywhere in src/generators [E-FLOW sweep]", r9_2, floor=2)
     ctx.run_rule("R9.3", "generate_testcase: matched expectations via original_string; unexpected lines via escaped_expectation(trim_newlines(line)) + ` (no-eol)` exactly on !ends_with(\\n) [E-FLOW, E-PATH]", r9_3, floor=8)
+    ctx.run_rule("R9.6", "sibling agreement: ` (no-eol)` is never appended after an ` (escaped)` marker (guarded like OutputStream::to_output_string) [E-PATH control dependence]", r9_6, floor=3)
     ctx.run_rule("R9.5", "escaped renderings never contain the decoder's introducer unescaped; ` (escaped)` exactly when the rendering differs (shared with C11 R11.2/R11.3) [E-PATH]", r9_5, floor=10)
     ctx.run_rule("R9.4", "writer/reader tables: `$ `/`> ` prefixes, exit-code line iff code != 0, `[n]` form accepted by the reader's pattern [E-TABLE]", r9_4, floor=6)
